@@ -236,3 +236,5 @@ ENGINE_V += ["C02"]
 extend("C03", "The public queries valid / span / mult are proved on a scalar and on a sequence of ANY length (valid <=> every node in [umin, umax]; span / mult element-wise in order, "
               "ValueError exactly when some node is outside), the recursion through map() resolved by the scalar contract of the same function.")
 extend("C09", "Engine V also proves the Bezier derivative matrix in closed form for EVERY degree (row i: -p/L at column i, p/L at column i+1).")
+extend("C10", "Engine V also proves Math.factorial(n) == n! (loop invariant over the ghost recursion, nonlinear) and Math.comb(u, l) == u! // (l! (u-l)!) in exact integer "
+              "arithmetic for every argument - the integers the Newton-Cotes weights are built from.")
